@@ -9,7 +9,11 @@ pub struct C06Prop;
 pub static C06: C06Prop = C06Prop;
 
 // (the last four differ from an operator only in letter case: they are plain truthy values)
-const TRUTHY: [&str; 14] = ["true", "1", "yes", "abc", " ", "x y", "TRUE", "-1", "nope", "0.0", "AND", "Or", "OR", "And"];
+/// (`@EA` `@EM` `@ES` `@CA` `@NA`: the harness replaces these by the handle of a live EMPTY array /
+/// map / set, of an array emptied by array_clear, of a non-empty array — a handle is a text like
+/// any other, hence truthy; the model is asked about the placeholder, which is truthy for the same
+/// reason.  `then` `do` `!false` …: words that look like syntax of other languages)
+const TRUTHY: [&str; 27] = ["true", "1", "yes", "abc", " ", "x y", "TRUE", "-1", "nope", "0.0", "AND", "Or", "OR", "And", "@EA", "@EM", "@ES", "@CA", "@NA", "then", "do", "!false", "!0", "!", "&&", "||", "handle:none"];
 const FALSY: [&str; 9] = ["false", "0", "no", "", "FALSE", "No", "nO", "False", "NO"];
 const CONSUMERS: [&str; 4] = ["not", "if", "elseif", "while"];
 
@@ -141,6 +145,21 @@ fn decide(consumer: &str, toks: &[String]) -> String {
     let mut ctx = sdk_context();
     let mut args = vec![];
     for (i, t) in toks.iter().enumerate() {
+        let t = &match t.as_str() {
+            "@EA" | "@EM" | "@ES" | "@CA" | "@NA" => {
+                let (cmd, args): (&str, Vec<String>) = match t.as_str() { "@EA" => ("array", vec![]), "@EM" => ("map", vec![]), "@ES" => ("set_new", vec![]), _ => ("array", vec!["a".into(), "b".into()]) };
+                match run_one(&mut ctx, cmd, args, Some("h".into())).0 {
+                    CommandResult::Continue(Some(h)) => {
+                        if t == "@CA" {
+                            run_one(&mut ctx, "array_clear", vec![h.clone()], None);
+                        }
+                        h
+                    }
+                    other => return format!("odd-handle {:?}", other),
+                }
+            }
+            _ => t.clone(),
+        };
         ctx.variables.insert(format!("t{}", i), t.clone());
         args.push(format!("${{t{}}}", i));
     }
